@@ -2,9 +2,13 @@
 
 proof:          lean/PdshVerif/Props/C02.lean (buffer loop of list_push_hostlist terminates / diverges, order
                 independence and idempotence of the specification, delete = first occurrence (unchanged) witnesses, ...)
-correspondence: the REAL pdsh binary built from /repo (`pdsh -R exec -f 1 -N <options> echo %h`: the hosts actually
-                contacted, in order; 4 s timeout = "never leaves opt_args") vs `pdshmodel hl xcl`
-                (Opt/Exclude.lean on the editable-list model of C16; regex answers from libc via harness/regex_oracle.c)
+correspondence: the REAL pdsh binary built from /repo (`pdsh -Q <options>`: the list pdsh goes on with, and
+                `pdsh -R exec -f 1 -N <options> echo %h`: the hosts actually contacted, in order; a timeout — re-tried
+                once with six times the time — = "never leaves opt_args") vs `pdshmodel hl xcl` (Opt/Exclude.lean on the
+                editable-list model of C16; regex answers from libc via harness/regex_oracle.c); the DETERMINISTIC
+                classes of vlib/xcl.py first (same command lines at every seed), then the random profiles; the real
+                hostlist.c in process (find / delete on range records) vs `hl edit` / `hl plspec`; exclusion files of
+                exactly 2^22-2 and 2^22-1 bytes of ranged text (the ceiling of list_push_hostlist)
 oracle:         the same command lines, by meaning, through `pdshmodel hl xspec` (Opt/ExcludeSpec.lean:
                 assembled targets minus every occurrence of every excluded name, regex filters, order kept)
 """
@@ -30,8 +34,11 @@ MANIFEST = dict(
     text="Theorems in lean/PdshVerif/Props/C02.lean about lean/PdshVerif/Opt/Exclude.lean; the compiled model is run "
          "against the real pdsh (built from /repo's working tree on every run) on generated argv mixing -w/-x options, "
          "`-` words, ^files, -^files, /re/ and -/re/ in random order with duplicates, overlaps, look-alike names and "
-         "exclusion files around the 4095-byte re-serialisation buffer; the hosts really contacted are compared with the "
-         "model and with the specification (assembled minus excluded, filtered), which yields the failing argv as replay.",
+         "exclusion files around the 4095-byte re-serialisation buffer — a deterministic enumeration of the classes the "
+         "property names (vlib/xcl.py) at every seed, then random profiles; the list pdsh goes on with (-Q) and the hosts "
+         "really contacted are compared with the model and with the specification (assembled minus excluded, filtered), "
+         "which yields the failing argv as replay; hostlist_find/hostlist_delete of the real hostlist.c on range records "
+         "against the list model and the plain-list specification; exclusion files at the 4 MiB ceiling.",
     design_ref="DESIGN.md section 5 C02",
     note="Lean 4.33 kernel; axioms propext/Classical.choice/Quot.sound at most (audited per theorem every run); "
          "hand-written model tied to opt.c/hostlist.c by differential execution of the real pdsh built from /repo; "
@@ -860,7 +867,15 @@ def run(ctx):
                    "exclusion files whose ranged form is 4093..4097 / 8191.. bytes), /re/ and -/re/ (anchors, classes, "
                    "alternation, patterns regcomp refuses), duplicates and overlaps on purpose, options in random order and "
                    "merged with commas; target SOURCE: -w words, -w ^file, and the file named by $WCOLL with no target word "
-                   "in any option (or $WCOLL set and overridden by -w); non-trivial = >= 3 assembled hosts, >= 1 exclusion or filter that removes at least one "
+                   "in any option (or $WCOLL set and overridden by -w); BEFORE the random profiles the deterministic classes of "
+                   "vlib/xcl.py (sys:*): every permutation of targets / spanning exclusion / filter, every exclusion source x "
+                   "every target source (incl. files with comments, blank lines, #include, blank-separated names), look-alike "
+                   "families (prefix, padding, suffix, case, dots/dashes, all-digit, tails around 2^25 and 2^32, un-numbered) "
+                   "with each member excluded alone and each member alone surviving all others, duplicates at every "
+                   "position, 36 patterns as keep and drop filters, filters hitting every position of a range, host number 0 "
+                   "at every position of an exclusion, two-bracket words, exclusion files of 4093..4097 / 8190..8193 bytes, "
+                   "empty pieces, blanks behind the dash; library level: find/delete histories on range records; non-trivial = "
+                   ">= 3 assembled hosts, >= 1 exclusion or filter that removes at least one "
                    "and keeps at least one host; distinct = distinct option list"}
     dist = {"profiles": {}}
     cli = Cli(ctx)
@@ -967,10 +982,15 @@ def run(ctx):
         ctx.log("offender signatures not covered by an open finding:", json.dumps(sigs, sort_keys=True))
     return ctx.finish(
         LEVEL, cov,
-        assumptions=["a ^file holds one host expression per line (how files are read: C10)",
+        assumptions=["how a ^file is READ is C10's model: here a file is the list of expressions its lines hold (files with "
+                     "comments, blank lines, blanks around names and one level of #include are written as such and "
+                     "handed to the model as that list)",
                      "regular expressions contain no top-level comma (the word splitter would cut them)",
-                     "libc regcomp/regexec decide what a pattern matches", "malloc never fails",
-                     "no misc module supplies or filters targets, WCOLL is unset"],
+                     "libc regcomp/regexec (REG_EXTENDED|REG_NOSUB, eflags 0) decide what a pattern matches; the "
+                     "theorems assume nothing about WHAT matches, only that the verdict is a function of (pattern, name)",
+                     "malloc never fails", "no misc module supplies or filters targets",
+                     "exclusion files whose ranged form reaches 4 MiB: the real pdsh is compared with the "
+                     "specification only (the model is quadratic in the number of names)"],
         trusted_base=["Lean 4.33 kernel", "axioms: propext, Classical.choice, Quot.sound at most (audited per theorem)",
                       "hand-written model lean/PdshVerif/Opt/Exclude.lean (+ Hostlist/*) tied to the code by differential "
                       "execution of the real pdsh", "Gen/Hostlist.lean regenerated from /repo (constants, probed switches); D2 "
